@@ -177,6 +177,38 @@ fn cf_push_two() {
     core::mem::forget(f);
 }
 
+//@h name=cf_push_three props=C04 bounded="DATA=64; three pushes of <= 4 payload bytes each (symbolic, different sizes)" fn=src/pdu_loop/frame_element/created_frame.rs::CreatedFrame::push_pdu obligation="three datagrams of different sizes: each placed right after the previous one, 'more follows' on the first two and not on the last, interrupt fields and counters stay zero (the position of the previous header is tracked across pushes)"
+#[cfg_attr(kani, kani::proof)]
+#[cfg_attr(kani, kani::unwind(70))]
+#[cfg_attr(all(test, verif_replay), test)]
+fn cf_push_three() {
+    let e = blank();
+    let idx0: u8 = vk::any();
+    let pdu_idx = AtomicU8::new(idx0);
+    let mut f = CreatedFrame::claim_created(NonNull::from(&e).cast(), 0, &pdu_idx, DATA).unwrap();
+    let d: [u8; 8] = vk::any_array();
+    let l1: usize = vk::any();
+    let l2: usize = vk::any();
+    let l3: usize = vk::any();
+    vk::assume(l1 <= 4 && l2 <= 4 && l3 <= 4);
+    let (c1, k1, a1) = any_command();
+    let (c2, k2, a2) = any_command();
+    let (c3, k3, a3) = any_command();
+    assert!(f.push_pdu(c1, &d[..l1], None).is_ok());
+    assert!(f.push_pdu(c2, &d[..l2], None).is_ok());
+    let h3 = f.push_pdu(c3, &d[..l3], None);
+    assert!(h3.is_ok());
+    let h3 = h3.unwrap();
+    assert!(h3.index_in_frame == 2 && h3.pdu_idx == idx0.wrapping_add(2));
+    let o2 = 12 + l1;
+    let o3 = o2 + 12 + l2;
+    assert!(e.pdu_payload_len == o3 + 12 + l3);
+    check_pdu(&e.ethernet_frame[16..], 0, k1, idx0, a1, l1, &d, l1, true);
+    check_pdu(&e.ethernet_frame[16..], o2, k2, idx0.wrapping_add(1), a2, l2, &d, l2, true);
+    check_pdu(&e.ethernet_frame[16..], o3, k3, idx0.wrapping_add(2), a3, l3, &d, l3, false);
+    core::mem::forget(f);
+}
+
 //@h name=cf_push_rest props=C04,C07 bounded="DATA=64; fill-the-rest push of <= 48 bytes after an optional first datagram of <= 8 bytes" fn=src/pdu_loop/frame_element/created_frame.rs::CreatedFrame::push_pdu_slice_rest obligation="push_pdu_slice_rest(cmd, bytes): None iff bytes empty or free space <= 12; otherwise Some(n) with n = min(bytes.len, free-12) > 0, the datagram carries exactly bytes[0..n] with length n, the previous header gets 'more follows'; never an error"
 #[cfg_attr(kani, kani::proof)]
 #[cfg_attr(kani, kani::unwind(70))]
